@@ -220,7 +220,13 @@ pub fn configs(tier: Tier, judge: u32, liveness: bool) -> Vec<OutCfg> {
         // a send refused locally because its caller-chosen id is in use must leave the exchange that owns the id -
         // and its window slot - alone (seeded change C05_r6 'cleaned up' the newest entry with that id)
         if !liveness {
-            for senders in [vec![SK::Q1Id(5), SK::Q1Id(5), SK::Q1, SK::Q1], vec![SK::Q1, SK::Q1Id(5), SK::Q1Id(5), SK::Q1Loop(2)]] {
+            let mut id_sets = vec![vec![SK::Q1Id(5), SK::Q1Id(5), SK::Q1, SK::Q1], vec![SK::Q1, SK::Q1Id(5), SK::Q1Id(5), SK::Q1Loop(2)]];
+            if role == Role::Client {
+                // the refused request may be a SUBSCRIBE / UNSUBSCRIBE as well (seeded change C05_r7)
+                id_sets.push(vec![SK::Q1Id(5), SK::SubId(5), SK::Q1, SK::Q1]);
+                id_sets.push(vec![SK::Q1Id(5), SK::UnsubId(5), SK::Q1, SK::Q1]);
+            }
+            for senders in id_sets {
                 v.push(OutCfg {
                     ep: ep_for(EpCfg::new(ver, role), 2, false),
                     cap: 2,
